@@ -100,6 +100,10 @@ def impl_resolve(item):
     return rec
 
 
+class E2ERaised(Exception):
+    pass
+
+
 def impl_end_to_end(item):
     """main(argv) on real files, then the library pipeline with the configuration main() resolved."""
     import graphtage
@@ -135,8 +139,12 @@ def impl_end_to_end(item):
     out, err = _NoClose(), _NoClose()
     so, se = sys.stdout, sys.stderr
     sys.stdout, sys.stderr = out, err
+    cli_exc = None
     try:
         status = gm.main(['graphtage'] + item['argv'] + paths)
+    except Exception as e:      # an internal error while rendering (property C13's subject): the library must fail alike
+        status = None
+        cli_exc = type(e).__name__
     finally:
         sys.stdout, sys.stderr = so, se
         gg.get_filetype, gg.BuildOptions.__init__, gp.Printer.__init__ = orig_gf, orig_bo, orig_init
@@ -149,13 +157,48 @@ def impl_end_to_end(item):
     pr = gp.Printer(lib_out, ansi_color=seen['printer']['ansi_color'], quiet=True, options=seen['printer']['options'])
     from_tree = ft_from.build_tree(paths[0], opts)
     to_tree = ft_to.build_tree(paths[1], opts)
-    with pr:
-        diff = from_tree.diff(to_tree)
-        fmt = item.get('format')
-        formatter = (graphtage.FILETYPES_BY_TYPENAME[fmt] if fmt else ft_from).get_default_formatter()
-        formatter.print(pr, diff)
-        pr.write('\n')
-    lib_status = 1 if any(any(e.has_non_zero_cost() for e in n.edit_list) for n in diff.dfs()) else 0
+    # what a library user writes for the three output modes (public API only: Filetype.build_tree, TreeNode.diff,
+    # get_all_edits, get_all_edit_contexts, print_parent_context, formatter.print)
+    argv = item['argv']
+    fmt = None
+    for i, a in enumerate(argv):
+        if a in ('--format', '-f') and i + 1 < len(argv):
+            fmt = argv[i + 1]
+    formatter = (graphtage.FILETYPES_BY_TYPENAME[fmt] if fmt else ft_from).get_default_formatter()
+    had = False
+    lib_exc = None
+    try:
+      with pr:
+          if '-e' in argv or '--only-edits' in argv:
+              for edit in from_tree.get_all_edits(to_tree):
+                  pr.write(str(edit))
+                  pr.newline()
+                  had = had or edit.has_non_zero_cost()
+          elif '-d' in argv or '--edit-digest' in argv:
+              from colorama import Fore
+              for ancestors, edit in from_tree.get_all_edit_contexts(to_tree):
+                  for i, node in enumerate(ancestors):
+                      if node.parent is not None:
+                          node.parent.print_parent_context(pr, for_child=node)
+                      if i == len(ancestors) - 1:
+                          with pr.color(Fore.BLUE):
+                              pr.write(" -> ")
+                          formatter.print(pr, edit)
+                  pr.newline()
+                  had = had or edit.has_non_zero_cost()
+          else:
+              diff = from_tree.diff(to_tree)
+              formatter.print(pr, diff)
+              had = any(any(e.has_non_zero_cost() for e in n.edit_list) for n in diff.dfs())
+          pr.write('\n')
+    except Exception as e:
+        lib_exc = type(e).__name__
+    lib_status = None if lib_exc else (1 if had else 0)
+    if cli_exc or lib_exc:
+        # both sides must fail with the same class; the partial texts are not compared
+        # graphtage's global printer state is unusable after an exception: report through an exception so that the
+        # worker is restarted before the next item
+        raise E2ERaised(json.dumps({'cli_exc': cli_exc, 'lib_exc': lib_exc}))
     for p in paths:
         os.unlink(p)
     return {'cli_text': cli_text, 'cli_status': status, 'lib_text': lib_out.getvalue(), 'lib_status': lib_status,
@@ -209,7 +252,11 @@ DOCS = [('json', '{"a": [1, 2, 3], "b": {"c": "x y", "d": null}}', '{"a": [1, 3,
         ('csv', 'a,b,c\n1,2,3\n', 'a,b,c\n1,5,3\n4,5,6\n'),
         ('xml', '<r><a x="1">t</a><b/></r>', '<r><a x="2">u</a><c/></r>')]
 E2E_OPTS = [[], ['-k'], ['-ds', 'none'], ['-ds', 'match'], ['-j'], ['-jl', '-jd'], ['-l'], ['-ll'], ['-jl'],
-            ['-k', '-j'], ['--color'], ['--no-color', '-jd']]
+            ['-k', '-j'], ['--color'], ['--no-color', '-jd'],
+            # output modes and cross-format rendering: what the CLI loads (build_tree_handling_errors) must print like what
+            # the library loads (Filetype.build_tree) in every mode, not only in the default one
+            ['-e'], ['-d'], ['-d', '-k'], ['-d', '--format', 'json'], ['--format', 'json'], ['--format', 'plist'],
+            ['--format', 'xml'], ['--format', 'yaml'], ['--format', 'csv']]
 
 
 def gen_e2e_cases(tier, rng, workdir):
@@ -332,8 +379,18 @@ def check(tier, seed):
         e2e = gen_e2e_cases(tier, rng, wd.path)
         res = common.run_impl('pC14', 'impl_end_to_end', e2e)
         n_e2e = 0
+        n_raised = 0
         for c, r in zip(e2e, res):
             run.count(['e2e', c['argv'], c['doc']], nontrivial=True)
+            if r.get('exc') == 'E2ERaised':
+                # an internal error while rendering (C13's subject, e.g. its open findings D9/D19): for C14 the command and
+                # the library must fail alike
+                both = json.loads(r['msg'])
+                n_raised += 1
+                if both['cli_exc'] != both['lib_exc']:
+                    run.violation({'kind': 'cli-raises-differently-from-library', 'argv': c['argv'], 'files': c['files'],
+                                   'result': both})
+                continue
             if 'ok' not in r:
                 run.violation({'kind': 'end-to-end-internal-error', 'argv': c['argv'], 'files': c['files'], 'result': r})
                 continue
@@ -342,6 +399,7 @@ def check(tier, seed):
             if o['cli_text'] != o['lib_text'] or o['cli_status'] != o['lib_status']:
                 run.violation({'kind': 'cli-differs-from-library', 'argv': c['argv'], 'files': c['files'], 'result': o})
         run.cov['traces_validated_against_impl'] = len(keep) + n_e2e
+        run.cov['end_to_end_runs_where_both_sides_raised_alike'] = n_raised
         if st['broken'] and not run.violations:
             # tie broken, no failing input among the cases: widen the search (thorough generator, more seeds)
             for s2 in range(3):
